@@ -783,6 +783,12 @@ func TestC02Standin(t *testing.T) {
 			}
 			readers = append(readers, r)
 		}
+		c02LongLived = false
+		for _, v := range versions {
+			if v.LongH != 0 {
+				c02LongLived = true
+			}
+		}
 		// tags (only when asked for): match/undecided sets over the stream ids and a definition that may
 		// name earlier tags; the search gets them as TagDetails and must agree with the direct reading
 		c02Tags = nil
@@ -823,12 +829,6 @@ func TestC02Standin(t *testing.T) {
 				tagDesc += fmt.Sprintf(" tag/%s=%q undecided=%v matches=%v", tn, def.str(), keys(tm.Uncertain), keys(tm.Matches))
 				c02Tags = append(c02Tags, tm) // later definitions may name this tag
 				_ = ti
-			}
-		}
-		c02LongLived = false
-		for _, v := range versions {
-			if v.LongH != 0 {
-				c02LongLived = true
 			}
 		}
 		pop, _ := json.Marshal(versions)
